@@ -211,4 +211,24 @@ example :
       { hbh := [], e2e := [], src := [7, 7, 7, 8, 8, 9, 9, 9], thr := [] }
     s.hbh = [7, 8] ∧ issuedH s = [7, 8] := by decide
 
+/-! ### the pinned tree tested membership and appended in two steps: that order does NOT have the property -/
+
+inductive PcP | read | got (r : Nat) | tested (r : Nat) | done (r : Nat)
+deriving DecidableEq, Repr
+
+/-- registry, random source, threads -/
+abbrev SysP := List Nat × List Nat × List PcP
+
+/-- one step of thread t in the pinned tree: read / test membership / append, each on its own -/
+def stepP (s : SysP) (t : Nat) : SysP :=
+  match s.2.2[t]? with
+  | some .read => (match s.2.1 with | [] => s | r :: rest => (s.1, rest, s.2.2.set t (.got r)))
+  | some (.got r) => if r ∈ s.1 then (s.1, s.2.1, s.2.2.set t .read) else (s.1, s.2.1, s.2.2.set t (.tested r))
+  | some (.tested r) => (s.1 ++ [r], s.2.1, s.2.2.set t (.done r))
+  | _ => s
+
+/-- two threads, a random source that repeats: both pass the test before either appends, both get 5 -/
+theorem pinned_two_step_commit_duplicates :
+    ([0, 1, 0, 1, 0, 1].foldl stepP ([], [5, 5], [.read, .read])) = ([5, 5], [], [.done 5, .done 5]) := by decide
+
 end BV.C15
